@@ -432,4 +432,87 @@ theorem encodeUnencryptedG_eq (u : Unencrypted) : encodeUnencryptedG u = some (e
 theorem gzipFrameG_eq (c : Bytes) : gzipFrameG c = some (gzipFrame c) := by
   simp [gzipFrameG, gzipFrame, Facts.C22.opsGzipEncode, writeOps, writeOp, gzipID, Facts.C22.gzipTypeID]
 
+/-! ### mt twins -/
+
+theorem mtGzipID_eq : Facts.C22.mtGzipPackedTypeID = gzipID := rfl
+theorem mtContainerID_eq : Facts.C22.mtMsgContainerTypeID = containerID := rfl
+theorem mtResultID_eq : Facts.C22.mtRPCResultTypeID = resultID := rfl
+
+theorem mtEncodeGzip_eq (p : Bytes) : mtEncodeGzip p = gzipFrame p := rfl
+theorem mtDecodeGzip_eq (b : Bytes) : mtDecodeGzip b = gzipUnframe b := rfl
+
+theorem mtDecodeGzip_mtEncodeGzip (p rest : Bytes) (h : p.length < 2 ^ 24) :
+    mtDecodeGzip (mtEncodeGzip p ++ rest) = .ok (p, rest) := by
+  rw [mtDecodeGzip_eq, mtEncodeGzip_eq]; exact gzipUnframe_gzipFrame p rest h
+
+structure MtMessage.WF (m : MtMessage) : Prop where
+  id_range : -2 ^ 63 ≤ m.msgID ∧ m.msgID < 2 ^ 63
+  seq_range : -2 ^ 31 ≤ m.seqno ∧ m.seqno < 2 ^ 31
+  bytes_range : -2 ^ 31 ≤ m.bytes ∧ m.bytes < 2 ^ 31
+  packed_len : m.packed.length < 2 ^ 24
+
+theorem mtDecodeMessage_mtEncodeMessage (m : MtMessage) (h : m.WF) (rest : Bytes) :
+    mtDecodeMessage (mtEncodeMessage m ++ rest) = .ok (m, rest) := by
+  unfold mtDecodeMessage mtEncodeMessage
+  rw [List.append_assoc, List.append_assoc, List.append_assoc, getInt64_putInt64 _ _ h.id_range]
+  simp only
+  rw [getInt32_putInt32 _ _ h.seq_range]
+  simp only
+  rw [getInt32_putInt32 _ _ h.bytes_range]
+  simp only
+  rw [mtDecodeGzip_mtEncodeGzip _ _ h.packed_len]
+
+theorem mtDecodeMessages_encode (ms : List MtMessage) (h : ∀ m ∈ ms, m.WF) (rest : Bytes) :
+    mtDecodeMessages ms.length ((ms.map mtEncodeMessage).flatten ++ rest) = .ok (ms, rest) := by
+  induction ms with
+  | nil => rfl
+  | cons m ms ih =>
+    simp only [List.map_cons, List.flatten_cons, List.length_cons, mtDecodeMessages, List.append_assoc]
+    rw [mtDecodeMessage_mtEncodeMessage m (h m (by simp))]
+    simp only
+    rw [ih (fun x hx => h x (by simp [hx]))]
+
+theorem mtDecodeContainer_mtEncodeContainer (ms : List MtMessage) (h : ∀ m ∈ ms, m.WF) (hc : ms.length < 2 ^ 31)
+    (rest : Bytes) : mtDecodeContainer (mtEncodeContainer ms ++ rest) = .ok (ms, rest) := by
+  unfold mtDecodeContainer mtEncodeContainer
+  rw [List.append_assoc, List.append_assoc, consumeID_putU32 _ _ (by decide)]
+  simp only
+  rw [getInt32_putInt32 _ _ (by omega)]
+  simp only [Int.toNat_natCast]
+  exact mtDecodeMessages_encode ms h rest
+
+theorem mtDecodeResult_mtEncodeResult (id : Int) (p rest : Bytes) (hid : -2 ^ 63 ≤ id ∧ id < 2 ^ 63)
+    (hp : p.length < 2 ^ 24) : mtDecodeResult (mtEncodeResult id p ++ rest) = .ok ((id, p), rest) := by
+  unfold mtDecodeResult mtEncodeResult
+  rw [List.append_assoc, List.append_assoc, consumeID_putU32 _ _ (by decide)]
+  simp only
+  rw [getInt64_putInt64 _ _ hid]
+  simp only
+  rw [mtDecodeGzip_mtEncodeGzip _ _ hp]
+
+/-- proto's encoding of the twin messages is byte for byte mt's. -/
+theorem encodeMessages_twins (ms : List MtMessage) (h : ∀ m ∈ ms, 0 ≤ m.bytes ∧ m.bytes ≤ 1048576) :
+    encodeMessages (ms.map MtMessage.toProto) = .ok ((ms.map mtEncodeMessage).flatten) := by
+  induction ms with
+  | nil => rfl
+  | cons m ms ih =>
+    simp only [List.map_cons, encodeMessages, List.flatten_cons]
+    have hm := h m (by simp)
+    have he : encodeMessage m.toProto = .ok (mtEncodeMessage m) := by
+      unfold encodeMessage MtMessage.toProto
+      simp only
+      rw [msgLenValidEnc m.bytes hm]
+      simp [mtEncodeMessage, mtEncodeGzip_eq, putRaw]
+    rw [he, ih (fun x hx => h x (by simp [hx]))]
+
+theorem mtPrealloc_lt (n : Int) : mtPrealloc n < 1024 := by
+  unfold mtPrealloc
+  split
+  · have : Int.tmod n (Facts.C22.preallocateLimit : Int) < 1024 := by
+      show Int.tmod n 1024 < 1024
+      have := Int.tmod_lt_of_pos n (by decide : (0 : Int) < 1024)
+      exact this
+    omega
+  · decide
+
 end TdModel.C22
